@@ -125,10 +125,12 @@ fn assert_eq(_: &mut ExecutionContext, mut args: Args) -> ControlFlow {
 
         // Compare in the unit of `eps`, unless `eps` is a (polymorphic) zero, which
         // can be converted to any unit and must not determine the unit
-        let comparison_unit = if eps.is_zero() {
+        let comparison_unit = if !eps.is_zero() {
+            eps.unit()
+        } else if !rhs_original.is_zero() {
             rhs_original.unit()
         } else {
-            eps.unit()
+            lhs_original.unit()
         };
 
         let lhs_converted = lhs_original.convert_to(comparison_unit);
